@@ -138,7 +138,7 @@ func propC03(c *Check) {
 		"Txid":    txidExpr,
 		"Txout":   "$3.OutputIndex",
 		"Amount":  "φ{(" + val + " - " + taxInner + ")|" + val + "}",
-		"Tax":     "φ{0|" + taxInner + "}",
+		"Tax":     "φ{((" + val + " / 10000) * Params.Get()#0.DepositTaxRate)|0|Params.Get()#0.MaxDepositTax}",
 	}
 	r := p.R(vd)
 	got := map[string]string{}
@@ -186,7 +186,7 @@ func propC03(c *Check) {
 	if len(subInstr) == 0 {
 		c.Violated("R5", "tax-subtraction @ "+FuncKey(vd), p.Pos(vd.Pos()), "value - tax not found reason=not-established")
 	} else {
-		c.RequireFact(vd, "R5", "tax-needs-rate>0", lit("(0 < Params.Get()#0.DepositTaxRate)"), instrSet(subInstr), "tax subtraction")
+		c.RequireFact(vd, "R5", "tax-needs-rate>0", patPositive("Params.Get()#0.DepositTaxRate"), instrSet(subInstr), "tax subtraction")
 		c.RequireFact(vd, "R5", "tax-needs-value>10000", lit("(10000 < "+val+")"), instrSet(subInstr), "tax subtraction")
 	}
 	_ = capUse
@@ -205,7 +205,7 @@ func propC03(c *Check) {
 				pred := b.Preds[i]
 				// every path to pred must establish both cap facts
 				t := pred.Instrs[len(pred.Instrs)-1]
-				ok1 := c.RequireFact(vd, "R5", "cap-needs-cap>0", lit("(0 < Params.Get()#0.MaxDepositTax)"), instrSet([]ssa.Instruction{t}), "cap application")
+				ok1 := c.RequireFact(vd, "R5", "cap-needs-cap>0", patPositive("Params.Get()#0.MaxDepositTax"), instrSet([]ssa.Instruction{t}), "cap application")
 				ok2 := c.RequireFact(vd, "R5", "cap-needs-tax>cap", lit("(Params.Get()#0.MaxDepositTax < (("+val+" / 10000) * Params.Get()#0.DepositTaxRate))"), instrSet([]ssa.Instruction{t}), "cap application")
 				capOK = ok1 && ok2
 			}
@@ -231,14 +231,14 @@ func propC03(c *Check) {
 		} else {
 			avoid := map[edgeKey]bool{}
 			for _, e := range edges {
-				avoid[edgeKey{e.Block, e.Idx}] = true
+				avoid[e.Key()] = true
 			}
 			succ := successTargets(nd)
 			ps := &PathSearch{Fn: nd, AvoidEdges: avoid, From: vc, IsTarget: func(in ssa.Instruction) bool { return in == ssa.Instruction(vc) || succ(in) }}
 			// only paths on which VerifyDeposit succeeded matter
 			okEdges := p.MatchEdges(nd, regexp.MustCompile(`^\(`+regexp.QuoteMeta(vstr)+`#1 != nil\)$`))
 			for _, e := range okEdges {
-				avoid[edgeKey{e.Block, e.Idx}] = true
+				avoid[e.Key()] = true
 			}
 			if t, path := ps.Find(); t != nil {
 				c.Violated("R3", "mark-before-next @ "+FuncKey(nd), p.InstrPos(t), "the next item (or the success exit) is reachable after a verified deposit without marking it as deposited", p.describePath(path)...)
@@ -479,7 +479,7 @@ func propC20(c *Check) {
 		return fmt.Sprintf(`^\(%d < %s\)$|^\(%d <= %s\)$`, dust, v, dust+1, v)
 	})
 	guard("ConfirmationNumber", func(v string) string {
-		return fmt.Sprintf(`^\(%s != 0\)$|^\(0 < %s\)$|^\(1 <= %s\)$`, v, v, v)
+		return fmt.Sprintf(`^\(%s != 0\)$|^\(0 != %s\)$|^\(0 < %s\)$|^\(1 <= %s\)$`, v, v, v, v)
 	})
 	// R3 never stored at runtime
 	for _, field := range []string{"NetworkName", "DepositMagicPrefix"} {
